@@ -447,12 +447,11 @@ func c19WUnits(thorough bool) []*explore.Unit {
 			ks = append(ks, st)
 		}
 		for _, k := range ks {
+			// (a second deviation on top of every interrupt position does not complete within
+			// the thorough budget: the thorough tier widens the positions and the requests)
 			fb := 0
 			if f.held || thorough {
 				fb = 1
-			}
-			if thorough && len(f.keys) == 1 {
-				fb = 2
 			}
 			units = append(units, mk(variant{name: fmt.Sprintf("wire|%s|close at step %d of %d", f.label, k, n), keys: f.keys, held: f.held, at: -2, step: k, bound: fb}))
 		}
